@@ -25,6 +25,27 @@ type famEnv struct {
 	path  string // store path (the family's table files live in path/f)
 	store kv.Store
 	fam   kv.Family
+	opt   kv.FamilyOption
+}
+
+// reopen closes the store and opens it again from its directory (what a restart of the storage process does): the
+// family's version is rebuilt from the manifest — the persisted edit logs of every flush and compaction — and no table
+// reader survives (cold reader cache).
+func (e *famEnv) reopen() error {
+	if err := kv.GetStoreManager().CloseStore(e.store.Name()); err != nil {
+		return fmt.Errorf("close: %w", err)
+	}
+	store, err := kv.GetStoreManager().CreateStore(e.path, kv.DefaultStoreOption())
+	if err != nil {
+		return fmt.Errorf("open: %w", err)
+	}
+	e.store = store
+	fam, err := store.CreateFamily("f", e.opt)
+	if err != nil {
+		return fmt.Errorf("family: %w", err)
+	}
+	e.fam = fam
+	return nil
 }
 
 func openFamily(maxFileSize uint32, threshold int) (*famEnv, error) {
@@ -39,17 +60,18 @@ func openFamily(maxFileSize uint32, threshold int) (*famEnv, error) {
 		os.RemoveAll(dir)
 		return nil, err
 	}
-	fam, err := store.CreateFamily("f", kv.FamilyOption{
+	famOpt := kv.FamilyOption{
 		Merger:           string(metricsdata.MetricDataMerger),
 		MaxFileSize:      maxFileSize,
 		CompactThreshold: threshold,
-	})
+	}
+	fam, err := store.CreateFamily("f", famOpt)
 	if err != nil {
 		_ = kv.GetStoreManager().CloseStore(path)
 		os.RemoveAll(dir)
 		return nil, err
 	}
-	return &famEnv{dir: dir, path: path, store: store, fam: fam}, nil
+	return &famEnv{dir: dir, path: path, store: store, fam: fam, opt: famOpt}, nil
 }
 
 func (e *famEnv) close() {
